@@ -33,7 +33,7 @@ def run(tier):
     # a crowd: more than 10 000 pipelines of one class complete in one run (started first, it is the longest single run)
     import multiprocessing as mp
     ncrowd = 1 if tier == "quick" else 6
-    cpool = mp.get_context("fork").Pool(min(ncrowd, 6))
+    cpool = common.pool(min(ncrowd, 6))
     crowd = [cpool.apply_async(driver_sched.crowd_run, (common.seed() * 7 + 608 + i, 2 * 10**6 + i)) for i in range(ncrowd)]
     traces = driver_sim.gen_traces(N[tier], common.seed() + 606, procs=common.NCPU - min(ncrowd, 6))
     # DAG pipelines (incl. identical parallel sinks that finish in one tick in different containers) through all policies
